@@ -572,3 +572,84 @@ func H_IdentConfined() {
 	}
 	rtReach("end")
 }
+
+func init() { register("ValueConfined", H_ValueConfined) }
+
+// H_ValueConfined (C02, C04): pattern and regexp values carrying arbitrary ASCII bytes (through
+// escapes): whatever they contain, the inline SQL is exactly "f" <op> '<one constant>' and the
+// parameterized SQL is "f" <op> ? with the same value as its only parameter.
+func H_ValueConfined() {
+	units := rtParam("UNITS")
+	var text []byte
+	if rtParam("MODE") == 0 {
+		// a bare word with wildcards: units are word bytes, escaped bytes, or * / ?
+		hasWild := false
+		for u := 0; u < units; u++ {
+			switch rtChoose("unit", 3) {
+			case 0:
+				b := holeByte("w", plainWordCls)
+				if u == 0 {
+					rtAssume(rtNot(rtIn(b, "0123456789iInN")))
+				}
+				text = append(text, b)
+			case 1:
+				b := rtByte("e")
+				rtAssume(b < 0x80)
+				rtAssume(b != 0)
+				text = append(text, '\\', b)
+			default:
+				text = append(text, holeByte("wc", "*?"))
+				hasWild = true
+			}
+		}
+		if !hasWild {
+			rtAssume(false)
+			return
+		}
+	} else {
+		text = append(text, '/')
+		for u := 0; u < units; u++ {
+			if rtChoose("unit", 2) == 0 {
+				b := rtByte("r")
+				rtAssume(rtAnd(b < 0x80, b != 0))
+				rtAssume(rtAnd(b != '/', b != '\\'))
+				text = append(text, b)
+			} else {
+				b := rtByte("e")
+				rtAssume(rtAnd(b < 0x80, b != 0))
+				text = append(text, '\\', b)
+			}
+		}
+		text = append(text, '/')
+	}
+	q := "f:" + string(text)
+	rtObserve("query", q)
+	rtObserve("fields", "f")
+	sql, err := lucene.ToPostgres(q)
+	psql, params, perr := lucene.ToParameterizedPostgres(q)
+	rtAssert("inline-ok-implies-param-ok", err != nil || perr == nil)
+	if err != nil {
+		rtReach("rejected")
+		return
+	}
+	rtObserve("sql", sql)
+	ast, _, ok := pgParse(sql)
+	good := ok && (ast.kind == qSimilar || ast.kind == qRegex || ast.kind == qCmp) && ast.a.kind == qCol && ast.b.kind == qStr
+	if good {
+		rtObserve("strvals", ast.b.text)
+		rtObserve("sqlmodel", "ok")
+	}
+	rtAssert("value-confined", good && ast.a.text == "f")
+	if !good || perr != nil {
+		return
+	}
+	rtObserve("psql", psql)
+	past, np, pok := pgParse(psql)
+	pgood := pok && np == 1 && len(params) == 1 && past.kind == ast.kind && past.a.kind == qCol && past.b.kind == qParam
+	rtAssert("value-param-confined", pgood)
+	if pgood {
+		pv, isStr := params[0].(string)
+		rtAssert("value-param-equals-inline-constant", isStr && pv == ast.b.text)
+	}
+	rtReach("end")
+}
